@@ -7,7 +7,7 @@ Mirrors
   `weisfeiler_lehman_graph_hash(graph, node_attr='atomname')` is an oracle: assumed equal on isomorphic
   atom-name-labelled graphs);
 * `build_file_parser.BuildDirector`: `[ volumes ]` lines, `finalize_section` of a `[ template ]` and
-  `finalize` (volumes re-keyed from residue name to hash), as dict updates in order;
+  `finalize` (user sizes copied from residue name to template hash), as dict updates in order;
 * `GenerateTemplates.run_molecule / gen_templates / run_system` (what is generated, what is taken from the
   user, which size is stored), the generator itself (Kamada–Kawai layout + L-BFGS optimisation +
   `compute_volume`) being a PARAMETER `gen`;
@@ -256,11 +256,13 @@ def BfState.step (s : BfState α) : BfOp α → BfState α
       templates := s.templates.set hash (mapFromCoG coords)
       resnamesToHash := s.resnamesToHash.set resname hash }
 
-/-- the loop at the end of `BuildDirector.finalize` -/
+/-- the loop at the end of `BuildDirector.finalize`: the user's size of a residue name is ALSO stored under
+the hash of the user's template of that name (it stays available under the name for residues of the same
+name but another graph) -/
 def rekeyVolumes (volumes : Dict α) (r2h : Dict String) : Dict α :=
   r2h.foldl (fun vols rh =>
     match vols.get? rh.1 with
-    | some v => (vols.set rh.2 v).del rh.1
+    | some v => vols.set rh.2 v
     | none => vols) volumes
 
 /-- a whole build file: returns `topology.volumes` and the dict every molecule gets as `.templates` -/
